@@ -13,9 +13,9 @@ Fixpoint supported (fuel : nat) (e : pexpr) : bool :=
       let sup := supported f in
       let osup o := match o with Some x => sup x | None => true end in
       match e with
-      | PName _ | PConst _ => true
+      | PName _ | PConst _ _ => true
       | PAttr v _ => sup v
-      | PCall fn args kw => sup fn && forallb sup args && forallb (fun ka => is_some (fst ka) && sup (snd ka)) kw
+      | PCall fn args kw => sup fn && forallb sup args && forallb (fun ka => sup (snd ka)) kw
       | PBin op l r => is_some (assocS op binop_symbols) && sup l && sup r
       | PBool op vs => is_some (assocS op boolop_symbols) && forallb sup vs
       | PCmp l rest => sup l && forallb (fun oe => is_some (assocS (fst oe) cmpop_symbols) && sup (snd oe)) rest
@@ -23,10 +23,11 @@ Fixpoint supported (fuel : nat) (e : pexpr) : bool :=
       | PSub v sl => sup v && sup sl
       | PSlice lo up st => osup lo && osup up && osup st
       | PTuple l | PList l | PSet l => forallb sup l
-      | PDict kv => forallb (fun kv0 => match fst kv0 with Some k => sup k | None => false end && sup (snd kv0)) kv
+      | PDict kv => forallb (fun kv0 => match fst kv0 with Some k => sup k | None => true end && sup (snd kv0)) kv
       | PIfExp b t o => sup b && sup t && sup o
       | PLambda _ defaults _ _ _ body => forallb sup defaults && sup body
       | PStarred x => sup x
+      | PNamed t v => sup t && sup v
       | POther _ _ => false
       end
   end.
@@ -49,13 +50,12 @@ Proof.
     repeat match goal with X : _ && _ = true |- _ => apply andb_true_iff in X as [? ?] end.
   - eexists; reflexivity.
   - eexists; reflexivity.
-  - destruct (IH e H) as [s ->]. eexists; reflexivity.
+  - destruct (IH e H) as [s ->]. destruct e; try (eexists; reflexivity). destruct numeric; eexists; reflexivity.
   - destruct (IH e) as [s ->]; [assumption|]. destruct (Hl args) as [xs ->]; [assumption|].
     match goal with |- exists _, match ?X with _ => _ end = _ => destruct (seq_opt_all
-      (fun ka : option str * pexpr => match fst ka, print f (snd ka) with Some k, Some v => Some (k ++ [61] ++ v) | _, _ => None end)
-      (fun ka => is_some (fst ka) && supported f (snd ka)) kw) as [ks Hk] end; [|assumption|].
-    + intros [k v] Hkv. cbn [fst snd] in *. apply andb_true_iff in Hkv as [Hk1 Hk2]. destruct k; [|discriminate].
-      destruct (IH v Hk2) as [sv ->]. eexists; reflexivity.
+      (fun ka : option str * pexpr => match fst ka, print f (snd ka) with Some k, Some v => Some (k ++ [61] ++ v) | None, Some v => Some ([42; 42] ++ v) | _, None => None end)
+      (fun ka => supported f (snd ka)) kw) as [ks Hk] end; [|assumption|].
+    + intros [k v] Hkv. cbn [fst snd] in *. destruct (IH v Hkv) as [sv ->]. destruct k; eexists; reflexivity.
     + rewrite Hk. eexists; reflexivity.
   - destruct (assocS op binop_symbols); [|discriminate]. destruct (IH e1) as [s1 ->]; [assumption|].
     destruct (IH e2) as [s2 ->]; [assumption|]. eexists; reflexivity.
@@ -68,7 +68,33 @@ Proof.
       destruct (IH v Hk2) as [sv ->]. eexists; reflexivity.
     + rewrite Hp. eexists; reflexivity.
   - destruct (assocS op unaryop_symbols); [|discriminate]. destruct (IH e) as [s ->]; [assumption|]. eexists; reflexivity.
-  - destruct (IH e1) as [s1 ->]; [assumption|]. destruct (IH e2) as [s2 ->]; [assumption|]. eexists; reflexivity.
+  - (* subscript *)
+    destruct (IH e1) as [s1 ->]; [assumption|]. destruct (IH e2) as [s2 Hs2]; [assumption|].
+    destruct e2; try (rewrite Hs2; eexists; reflexivity).
+    (* a tuple of subscripts: its items are printed one by one *)
+    destruct l as [|x r]; [rewrite Hs2; eexists; reflexivity|].
+    destruct f as [|f']; [discriminate|].
+    match goal with X : supported (S f') (PTuple (x :: r)) = true |- _ => cbn [supported] in X end.
+    assert (Hitems : exists xs, seq_opt (map (print (S f')) (x :: r)) = Some xs).
+    { apply seq_opt_all with (ok := supported (S f')); [exact IH|].
+      (* the items are supported with one more unit of fuel *)
+      assert (Hmono : forall g e0, supported g e0 = true -> supported (S g) e0 = true).
+      { clear. induction g as [|g IHg]; intros e0 H0; [discriminate|].
+        assert (Hfl : forall l0, forallb (supported g) l0 = true -> forallb (supported (S g)) l0 = true).
+        { intros l0 Hl0. rewrite forallb_forall in *. intros y Hy. apply IHg. apply Hl0. exact Hy. }
+        destruct e0; cbn [supported] in H0 |- *; try exact H0;
+          repeat match goal with X : _ && _ = true |- _ => apply andb_true_iff in X as [? ?] end;
+          repeat (apply andb_true_iff; split); try assumption; try (apply IHg; assumption); try (apply Hfl; assumption).
+        - match goal with X : forallb _ kw = true |- _ => rewrite forallb_forall in X |- *; intros y Hy; apply IHg; apply X; exact Hy end.
+        - match goal with X : forallb _ rest = true |- _ => rewrite forallb_forall in X |- *; intros y Hy; specialize (X y Hy);
+            apply andb_true_iff in X as [X1 X2]; apply andb_true_iff; split; [exact X1|apply IHg; exact X2] end.
+        - destruct lo; [apply IHg; assumption|reflexivity].
+        - destruct up; [apply IHg; assumption|reflexivity].
+        - destruct st; [apply IHg; assumption|reflexivity].
+        - match goal with X : forallb _ kv = true |- _ => rewrite forallb_forall in X |- *; intros y Hy; specialize (X y Hy);
+            apply andb_true_iff in X as [X1 X2]; apply andb_true_iff; split; [destruct (fst y); [apply IHg; exact X1|reflexivity]|apply IHg; exact X2] end. }
+      rewrite forallb_forall in *. intros y Hy. apply Hmono. match goal with X : forall _, In _ (x :: r) -> _ |- _ => apply X; exact Hy end. }
+    destruct Hitems as [xs ->]. destruct xs as [|one [|two more]]; eexists; reflexivity.
   - assert (Ho : forall o, match o with Some x => supported f x | None => true end = true ->
                            exists s, match o with Some y => print f y | None => Some [] end = Some s).
     { intros [x|] Hx; [apply IH; exact Hx|eexists; reflexivity]. }
@@ -83,39 +109,33 @@ Proof.
   - destruct (seq_opt_all
       (fun kv0 : option pexpr * pexpr => match fst kv0 with
          | Some k => match print f k, print f (snd kv0) with Some a, Some b => Some (a ++ s2l ": " ++ b) | _, _ => None end
-         | None => None end)
-      (fun kv0 => match fst kv0 with Some k => supported f k | None => false end && supported f (snd kv0)) kv) as [xs Hx]; [|assumption|].
-    + intros [k v] Hkv. cbn [fst snd] in *. apply andb_true_iff in Hkv as [Hk1 Hk2]. destruct k as [k|]; [|discriminate].
-      destruct (IH k Hk1) as [sk ->]. destruct (IH v Hk2) as [sv ->]. eexists; reflexivity.
+         | None => match print f (snd kv0) with Some b => Some ([42; 42] ++ b) | None => None end end)
+      (fun kv0 => match fst kv0 with Some k => supported f k | None => true end && supported f (snd kv0)) kv) as [xs Hx]; [|assumption|].
+    + intros [k v] Hkv. cbn [fst snd] in *. apply andb_true_iff in Hkv as [Hk1 Hk2]. destruct (IH v Hk2) as [sv ->].
+      destruct k as [k|]; [destruct (IH k Hk1) as [sk ->]|]; eexists; reflexivity.
     + rewrite Hx. eexists; reflexivity.
   - destruct (IH e1) as [s1 ->]; [assumption|]. destruct (IH e2) as [s2 ->]; [assumption|]. destruct (IH e3) as [s3 ->]; [assumption|].
     eexists; reflexivity.
   - destruct (Hl defaults) as [xs ->]; [assumption|]. destruct (IH e) as [s ->]; [assumption|]. eexists; reflexivity.
   - destruct (IH e H) as [s ->]. eexists; reflexivity.
+  - destruct (IH e1) as [s1 ->]; [assumption|]. destruct (IH e2) as [s2 ->]; [assumption|]. eexists; reflexivity.
   - discriminate.
 Qed.
 
-(* ---- what is false of the printer (known finding C19-F1) ---------------------------------------- *)
-(* two different expressions are printed as the same text: a conditional expression is written
-   without parentheses, so as an operand it re-parses with a different shape *)
-Theorem print_injective_refuted : exists e1 e2, e1 <> e2 /\ print_expr e1 <> None /\ print_expr e1 = print_expr e2.
-Proof.
-  exists (PIfExp (PIfExp (PName (s2l "a")) (PName (s2l "b")) (PName (s2l "c"))) (PName (s2l "d")) (PName (s2l "e"))),
-         (PIfExp (PName (s2l "a")) (PName (s2l "b")) (PIfExp (PName (s2l "c")) (PName (s2l "d")) (PName (s2l "e")))).
-  split; [discriminate|]. split; vm_compute; [discriminate|reflexivity].
-Qed.
-
-(* operators of Python's grammar without a symbol in the tables make the printer raise *)
-Theorem print_total_refuted : exists op, print_expr (PBin op (PName (s2l "a")) (PName (s2l "b"))) = None.
-Proof. exists (s2l "Pow"). vm_compute. reflexivity. Qed.
-
-(* a double-star mapping in a call or a dict display makes the printer raise *)
-Theorem print_doublestar_refuted :
-  print_expr (PCall (PName (s2l "f")) [] [(None, PName (s2l "d"))]) = None /\
-  print_expr (PDict [(None, PName (s2l "d"))]) = None.
-Proof. split; vm_compute; reflexivity. Qed.
-
-(* keyword-only parameters of a lambda are not written at all *)
-Theorem print_lambda_kwonly_refuted :
-  print_expr (PLambda [s2l "x"] [] None [s2l "k"] None (PName (s2l "k"))) = print_expr (PLambda [s2l "x"] [] None [] None (PName (s2l "k"))).
+(* ---- what remains false of the printer (known finding C19-F1) -------------------------------------- *)
+(* a lambda is written without parentheses (test_ast.test_expr_generate pins this text), so as the left operand of an
+   operator it swallows what follows: the printed text below is, for Python, a lambda whose body is the sum *)
+Example lambda_operand_is_not_parenthesised :
+  print_expr (PBin (s2l "Add") (PLambda [] [] None [] None (PName (s2l "a"))) (PName (s2l "b"))) = Some (s2l "(lambda : a + b)").
 Proof. vm_compute. reflexivity. Qed.
+
+(* the histories of the repaired defects (fix commits for the printer): the operators, double-star mappings, conditional
+   expressions, keyword-only parameters, numbers with attributes and tuples of subscripts are now printed *)
+Example repaired_printer_cases :
+  print_expr (PBin (s2l "Pow") (PName (s2l "a")) (PIfExp (PName (s2l "b")) (PName (s2l "c")) (PName (s2l "d")))) = Some (s2l "(a ** (b if c else d))") /\
+  print_expr (PCall (PName (s2l "f")) [] [(None, PName (s2l "d"))]) = Some (s2l "f(**d)") /\
+  print_expr (PDict [(None, PName (s2l "d"))]) = Some (s2l "{**d}") /\
+  print_expr (PLambda [s2l "x"] [] None [s2l "k"] None (PName (s2l "k"))) = Some (s2l "lambda x, *, k: k") /\
+  print_expr (PAttr (PConst (s2l "1") true) (s2l "real")) = Some (s2l "(1).real") /\
+  print_expr (PSub (PName (s2l "x")) (PTuple [PSlice (Some (PName (s2l "a"))) None None; PName (s2l "b")])) = Some (s2l "x[a:, b]").
+Proof. vm_compute. repeat split. Qed.
